@@ -1,8 +1,11 @@
 package main
 
 import (
+	"context"
 	"fmt"
+	"regexp"
 	"go/types"
+	"os"
 	"runtime/debug"
 	"sort"
 	"strings"
@@ -36,7 +39,7 @@ func (x *Exec) propsOf(c Clause, u *FuncUnit) []string {
 func VerifyUnit(ld *Loaded, u *FuncUnit, cfg *Config) (res *UnitResult) {
 	t0 := time.Now()
 	res = &UnitResult{Unit: u.Pkg.Name + "." + u.Key, Pkg: u.Pkg.Path}
-	if u.C.Trusted || u.IfaceT != nil {
+	if u.C.Trusted || u.IfaceT != nil || u.C.Extern {
 		res.Trusted = true
 		return res
 	}
@@ -83,6 +86,7 @@ func VerifyUnit(ld *Loaded, u *FuncUnit, cfg *Config) (res *UnitResult) {
 		args = append(args, v)
 	}
 	fr.args = args
+	x.loadAxioms(st)
 	for _, a := range args {
 		for _, l := range a.L {
 			if l.Sort.Kind != SArray {
@@ -128,6 +132,21 @@ func VerifyUnit(ld *Loaded, u *FuncUnit, cfg *Config) (res *UnitResult) {
 		o.x = x
 	}
 	return res
+}
+
+// loadAxioms evaluates every `axiom` of the loaded packages in the initial state and keeps the
+// results as global facts (each axiom is listed among the assumptions).
+func (x *Exec) loadAxioms(st *State) {
+	for _, lp := range x.ld.Order {
+		for _, l := range lp.Lemmas {
+			if !l.L.Axiom || l.Fn == nil {
+				continue
+			}
+			v, facts := x.runSpecF(l.Fn, st, st, nil)
+			x.facts = append(x.facts, x.tb.Implies(facts, v.L[0]))
+			x.assumed["axiom "+lp.Name+"."+l.L.Name+": "+l.L.Expr] = true
+		}
+	}
 }
 
 func splitTuple(x *Exec, v Val) []Val {
@@ -198,7 +217,15 @@ func (o *Obligation) queryOpt(all bool, absMul bool) string {
 	x := o.x
 	tb := x.tb
 	var as []*Term
-	as = append(as, o.Hyp)
+	if o.slice && !o.Cover {
+		h := o.Hyp
+		if o.noQuant {
+			h = tb.DropQuant(h, true)
+		}
+		as = append(as, sliceHyp(h, o.Goal, o.noQuant)...)
+	} else {
+		as = append(as, o.Hyp)
+	}
 	if !o.Cover {
 		as = append(as, tb.Not(o.Goal))
 	}
@@ -232,6 +259,115 @@ func (o *Obligation) queryOpt(all bool, absMul bool) string {
 		}
 	}
 	return tb.QueryOpt(as, x.inputs, all, absMul)
+}
+
+// sliceHyp keeps the top-level conjuncts of hyp that are connected to the goal through shared
+// scalar symbols (free constants that are not heap arrays, and uninterpreted applications).
+func sliceHyp(hyp, goal *Term, noQuant bool) []*Term {
+	var conj []*Term
+	if hyp.Op == "and" {
+		conj = hyp.Args
+	} else {
+		conj = []*Term{hyp}
+	}
+	symsOf := func(t *Term) map[int]bool {
+		out := map[int]bool{}
+		seen := map[int]bool{}
+		var walk func(t *Term)
+		walk = func(t *Term) {
+			if seen[t.ID] {
+				return
+			}
+			seen[t.ID] = true
+			if t.Op == "var" && t.Sort.Kind != SArray {
+				out[t.ID] = true
+			}
+			for _, a := range t.Args {
+				walk(a)
+			}
+		}
+		walk(t)
+		return out
+	}
+	cs := make([]map[int]bool, len(conj))
+	for i, c := range conj {
+		cs[i] = symsOf(c)
+	}
+	live := symsOf(goal)
+	keep := make([]bool, len(conj))
+	// quantified conjuncts (always facts about array contents) are kept only when the goal reads
+	// arrays at all and they mention a symbol of the goal itself
+	goalArrays := false
+	{
+		seen := map[int]bool{}
+		var walk func(t *Term)
+		walk = func(t *Term) {
+			if seen[t.ID] || goalArrays {
+				return
+			}
+			seen[t.ID] = true
+			if t.Sort.Kind == SArray {
+				goalArrays = true
+				return
+			}
+			for _, a := range t.Args {
+				walk(a)
+			}
+		}
+		walk(goal)
+	}
+	if noQuant {
+		goalArrays = false
+	}
+	for i, c := range conj {
+		if c.hasBnd && goalArrays {
+			for s := range cs[i] {
+				if live[s] {
+					keep[i] = true
+					break
+				}
+			}
+		}
+	}
+	for changed := true; changed; {
+		changed = false
+		for i := range conj {
+			if keep[i] || conj[i].hasBnd {
+				continue
+			}
+			hit := len(cs[i]) == 0 // closed facts (about heap arrays only) are kept
+			for s := range cs[i] {
+				if live[s] {
+					hit = true
+					break
+				}
+			}
+			if hit {
+				keep[i] = true
+				changed = true
+				for s := range cs[i] {
+					live[s] = true
+				}
+			}
+		}
+	}
+	var out []*Term
+	nq, kq := 0, 0
+	for i, c := range conj {
+		if c.hasBnd {
+			nq++
+		}
+		if keep[i] {
+			out = append(out, c)
+			if c.hasBnd {
+				kq++
+			}
+		}
+	}
+	if os.Getenv("GOVC_DEBUG_SLICE") != "" {
+		fmt.Fprintf(os.Stderr, "slice: %d conjuncts (%d quantified) -> kept %d (%d quantified), goalArrays=%v\n", len(conj), nq, len(out), kq, goalArrays)
+	}
+	return out
 }
 
 // a fact is relevant when its left-most uninterpreted application (the axiomatised term) is in the cone
@@ -288,19 +424,51 @@ func dischargeOne(o *Obligation, cfg *Config) {
 	o.x.mu.Lock()
 	qp := o.query(false)
 	qa := o.query(true)
-	qm := ""
-	if !o.Cover && strings.Contains(qp, "(bvmul t") {
-		qm = o.queryOpt(false, true)
-		if !strings.Contains(qm, "absmul") {
-			qm = ""
+	var weak []weakQuery
+	if !o.Cover {
+		hasMul := strings.Contains(qp, "(bvmul t")
+		if hasMul {
+			qm := o.queryOpt(false, true)
+			if strings.Contains(qm, "absmul") {
+				weak = append(weak, weakQuery{qm, "(absmul)"})
+			}
 		}
+		// hypothesis sliced to the conjuncts connected to the goal (dropping hypotheses is sound)
+		o.slice = true
+		qs := o.queryOpt(false, false)
+		if os.Getenv("GOVC_DEBUG_SLICE") != "" {
+			fmt.Fprintf(os.Stderr, "slice %s: %d -> %d bytes\n", o.Name, len(qp), len(qs))
+		}
+		if len(qs) < len(qp) {
+			weak = append(weak, weakQuery{qs, "(sliced)"})
+			if hasMul {
+				qsm := o.queryOpt(false, true)
+				if strings.Contains(qsm, "absmul") {
+					weak = append(weak, weakQuery{qsm, "(sliced,absmul)"})
+				}
+			}
+		}
+		// and without any quantified hypothesis at all
+		o.noQuant = true
+		qn := o.queryOpt(false, false)
+		if len(qn) < len(qs) && strings.Contains(qs, "(forall") {
+			weak = append(weak, weakQuery{qn, "(sliced,noquant)"})
+			if hasMul {
+				qnm := o.queryOpt(false, true)
+				if strings.Contains(qnm, "absmul") {
+					weak = append(weak, weakQuery{qnm, "(sliced,noquant,absmul)"})
+				}
+			}
+		}
+		o.noQuant = false
+		o.slice = false
 	}
 	o.x.mu.Unlock()
 	o.QuerySz = len(qp)
 	if cfg.DumpDir != "" {
 		dumpQuery(cfg.DumpDir, o.Name, qp)
-		if qm != "" {
-			dumpQuery(cfg.DumpDir, o.Name+".absmul", qm)
+		for _, w := range weak {
+			dumpQuery(cfg.DumpDir, o.Name+"."+strings.Trim(w.label, "()"), w.q)
 		}
 	}
 	if len(qp) > 4<<20 {
@@ -308,10 +476,10 @@ func dischargeOne(o *Obligation, cfg *Config) {
 		o.Res = SolveResult{Status: "toolarge"}
 		return
 	}
-	r := Solve(qp, qa, qm, cfg.TimeoutMs)
+	r := Solve(qp, qa, weak, cfg.TimeoutMs)
 	if r.Status != "unsat" && r.Status != "sat" {
 		// one retry with a doubled budget (loaded machine)
-		r2 := Solve(qp, qa, qm, cfg.TimeoutMs*2)
+		r2 := Solve(qp, qa, weak, cfg.TimeoutMs*2)
 		r2.Tried = append(r.Tried, r2.Tried...)
 		r = r2
 	}
@@ -325,7 +493,101 @@ func dischargeOne(o *Obligation, cfg *Config) {
 		o.Status = "discharged"
 	case !o.Cover && r.Status == "sat":
 		o.Status = "failed"
+		if cfg.Verbose {
+			o.Diag = diagnose(o)
+		}
 	default:
 		o.Status = "undecided"
 	}
+}
+
+// diagnose: which conjuncts of the goal are false in a model (development aid).
+func diagnose(o *Obligation) string {
+	x := o.x
+	var conj []*Term
+	var flat func(t *Term)
+	flat = func(t *Term) {
+		if t.Op == "and" {
+			for _, a := range t.Args {
+				flat(a)
+			}
+			return
+		}
+		if !t.hasBnd {
+			conj = append(conj, t)
+		}
+	}
+	flat(o.Goal)
+	if len(conj) > 40 {
+		conj = conj[:40]
+	}
+	// also report the loop variables (phis) and callee results occurring in the goal
+	var phis []*Term
+	seenV := map[int]bool{}
+	var vars func(t *Term)
+	vars = func(t *Term) {
+		if seenV[t.ID] {
+			return
+		}
+		seenV[t.ID] = true
+		if t.Op == "var" && t.Sort.Kind != SArray && (strings.HasPrefix(t.Name, "phi_") || strings.HasPrefix(t.Name, "r_") || strings.HasPrefix(t.Name, "p_")) {
+			phis = append(phis, t)
+		}
+		for _, a := range t.Args {
+			vars(a)
+		}
+	}
+	vars(o.Goal)
+	if len(phis) > 30 {
+		phis = phis[:30]
+	}
+	if len(phis) > 0 {
+		x.mu.Lock()
+		save := x.inputs
+		x.inputs = phis
+		q := o.query(false)
+		x.inputs = save
+		x.mu.Unlock()
+		r := runOne(context.Background(), solvers[0], q, 20000)
+		if r.Status == "sat" {
+			return "\n        goal vars: " + strings.Join(strings.Fields(modelOf(r.Output)), " ") + diagConj(o, conj)
+		}
+	}
+	return diagConj(o, conj)
+}
+
+func diagConj(o *Obligation, conj []*Term) string {
+	x := o.x
+	tb := x.tb
+	if len(conj) == 0 {
+		return ""
+	}
+	x.mu.Lock()
+	save := x.inputs
+	x.inputs = conj
+	q := o.query(false)
+	x.inputs = save
+	x.mu.Unlock()
+	r := runOne(context.Background(), solvers[0], q, 20000)
+	if r.Status != "sat" {
+		return "diag: " + r.Status
+	}
+	// parse values in order: the get-value reply lists (term value) pairs; count trailing values
+	out := r.Output
+	var sb strings.Builder
+	vals := regexp.MustCompile(`\s(true|false)\)`).FindAllStringSubmatch(out, -1)
+	for i, c := range conj {
+		v := "?"
+		if i < len(vals) {
+			v = vals[i][1]
+		}
+		if v != "true" {
+			s := tb.Show(c)
+			if len(s) > 300 {
+				s = s[:300]
+			}
+			fmt.Fprintf(&sb, "\n        conj %d = %s: %s", i, v, s)
+		}
+	}
+	return sb.String()
 }
